@@ -1710,7 +1710,7 @@ impl Engine {
     fn check_fp(&mut self, text: &str) -> (Verdict, Option<BTreeMap<String, String>>) {
         if let Some((v, m)) = self.memo.get(text) { self.stats.q_memo += 1; return (*v, m.clone()); }
         let t0 = Instant::now();
-        let dir = std::env::var("VERIF_TMP").unwrap_or_else(|_| "/verif/.build/tmp".into());
+        let dir = std::env::var("VERIF_TMP").unwrap_or_else(|_| std::env::temp_dir().join("verif-fp").to_string_lossy().to_string());
         let _ = std::fs::create_dir_all(&dir);
         let path = format!("{}/fp-{}-{}.smt2", dir, std::process::id(), self.stats.q_sat + self.stats.q_unsat + self.stats.q_unknown);
         let mut verdict = Verdict::Unknown;
